@@ -340,7 +340,7 @@ Definition facts0 : facts :=
      f_with_facts := false; f_res_bus_empty := true; f_init_vm_auto := VQ (51 # 50);
      f_multi_slack := false; f_ls2g_blocked := false; f_tdpf_ok := false |}.
 Definition stored_w : dict := [("tolerance_mva", VQ (1 # 1000))].
-Definition explicit_w : dict := [("tolerance_mva", VQ (1 # 100000000))].
+Definition explicit_w : dict := [("tolerance_mva", VQ tol_default)].
 
 Lemma res_ok_inj {A} (a b : A) : Ok a = Ok b -> a = b. Proof. now inversion 1. Qed.
 
@@ -360,7 +360,7 @@ Theorem explicit_value_visible_refuted :
     mem k plain_keys = true /\ lookup k explicit = Some v /\
     runpp_options f stored explicit = Ok o /\ lookup k o <> Some v.
 Proof.
-  exists facts0, stored_w, explicit_w, "tolerance_mva", (VQ (1 # 100000000)).
+  exists facts0, stored_w, explicit_w, "tolerance_mva", (VQ tol_default).
   eexists. split; [reflexivity|]. split; [reflexivity|]. split; [vm_compute; reflexivity|].
   vm_compute. discriminate.
 Qed.
